@@ -1,6 +1,6 @@
-"""Replay for C20: run the real Proximity/ExtendedProximity on the model's
-inputs (and on single-bit variations of them of the same length) and compare
-with the leading-equal-bits definition."""
+"""Replay for C20: run the real Proximity/ExtendedProximity/DistanceCmp on the
+model's inputs (and on small variations of them of the same length) and compare
+with the leading-equal-bits definition / big-integer XOR distances."""
 import os, sys
 sys.path.insert(0, os.path.dirname(os.path.dirname(os.path.abspath(__file__))) + "/tools")
 from check import slice_bytes
@@ -48,7 +48,63 @@ func TestVerifReplay(t *testing.T) {
 }
 '''
 
+TEST_CMP = '''package boson
+
+import (
+	"math/big"
+	"testing"
+)
+
+func TestVerifReplay(t *testing.T) {
+	a := []byte{%(a)s}
+	x := []byte{%(x)s}
+	y := []byte{%(y)s}
+	check := func(a, x, y []byte) bool {
+		got, err := DistanceCmp(a, x, y)
+		if len(a) != len(x) || len(a) != len(y) {
+			if err == nil {
+				t.Logf("REPLAY-CONFIRMED DistanceCmp accepted lengths %%d/%%d/%%d", len(a), len(x), len(y))
+				return true
+			}
+			return false
+		}
+		if err != nil {
+			t.Logf("REPLAY-CONFIRMED DistanceCmp rejected equal lengths: %%v", err)
+			return true
+		}
+		dx, dy := make([]byte, len(a)), make([]byte, len(a))
+		for i := range a { dx[i] = x[i] ^ a[i]; dy[i] = y[i] ^ a[i] }
+		want := -new(big.Int).SetBytes(dx).Cmp(new(big.Int).SetBytes(dy))
+		if got != want {
+			t.Logf("REPLAY-CONFIRMED DistanceCmp(a=%%x, x=%%x, y=%%x) = %%d, XOR distances as big integers say %%d", a, x, y, got, want)
+			return true
+		}
+		return false
+	}
+	if check(a, x, y) { return }
+	if len(a) == len(x) && len(a) == len(y) {
+		// same lengths, single-byte variations of y
+		for p := 0; p < len(y) && p < 64; p++ {
+			for _, d := range []byte{1, 0x80} {
+				y2 := append([]byte(nil), y...)
+				y2[p] ^= d
+				if check(a, x, y2) { return }
+			}
+		}
+	}
+	t.Logf("not reproduced")
+}
+'''
+
 def build(unit, obl, vals):
+    lit = lambda b: ", ".join(str(v) for v in b)
+    if "DistanceCmp" in unit:
+        a = slice_bytes(vals, "a") or []
+        x = slice_bytes(vals, "x") or []
+        y = slice_bytes(vals, "y") or []
+        if max(len(a), len(x), len(y)) > 1 << 16:
+            return None
+        return {"pkg": "pkg/boson", "test": TEST_CMP % {"a": lit(a), "x": lit(x), "y": lit(y)}}
     if "Proximity" not in unit:
         return None
     fn = "ExtendedProximity" if "Extended" in unit else "Proximity"
@@ -57,5 +113,4 @@ def build(unit, obl, vals):
     other = slice_bytes(vals, "other") or []
     if len(one) != len(other) or len(one) > 1 << 20:
         return None
-    lit = lambda b: ", ".join(str(x) for x in b)
     return {"pkg": "pkg/boson", "test": TEST % {"one": lit(one), "other": lit(other), "fn": fn, "cap": cap}}
